@@ -207,3 +207,44 @@ def reservation_world(model, preserved_globals=('PRESERVED',)):
     if not any(id(b) in renamed for (_n, b) in order):
         raise AnalysisError('reservation world: no binding was renamed - the enumeration does not reach the assignment loop')
     return problems, {label[k]: v for k, v in final.items()}
+
+
+def sort_world(model):
+    """rename() on one scope with four bindings of different mention counts: names are handed out in descending order of new mentions (the
+    shortest names go to the most used bindings). Only all_bindings, the reservation scope and the per-binding counts are supplied.
+    -> (order in which bindings were named, their counts)"""
+    module = Obj('Module', name='m', body=[])
+    module.attrs['assigned_names'] = set()
+    counts = {'rare': 1, 'busy': 9, 'middle': 4, 'common': 6}
+    bs = []
+    for nm in ('rare', 'busy', 'middle', 'common'):
+        o = Obj('NameBinding', name='original_' + nm, _name='original_' + nm, allow_rename=True, _allow_rename=True, reserved=None, _reserved=None, tag=nm)
+        o.qual = QUALS['NameBinding']
+        bs.append(o)
+    named = []
+
+    def h_rename(I, e, args, kw, env):
+        b = I.last_recv
+        if isinstance(b, Obj) and b in bs:
+            named.append((b.attrs['tag'], args[0]))
+            b.attrs['name'] = b.attrs['_name'] = args[0]
+            return None
+        return TOP
+
+    def h_count(I, e, args, kw, env):
+        b = I.last_recv
+        if isinstance(b, Obj) and any(b is x for x in bs):
+            return counts[b.attrs['tag']]
+        return NotImplemented
+    hooks = {'all_bindings': lambda I, e, a, kw, env: [(module, b) for b in bs], 'add_assigned': lambda I, e, a, kw, env: None,
+             'reservation_scope': lambda I, e, a, kw, env: [module], '.new_mention_count': h_count, '.old_mention_count': lambda I, e, a, kw, env: 0,
+             '.should_rename': lambda I, e, a, kw, env: True if (isinstance(I.last_recv, Obj) and any(I.last_recv is x for x in bs)) else NotImplemented,
+             '.rename': h_rename, '.disallow_rename': lambda I, e, a, kw, env: None,
+             'name_filter': lambda I, e, a, kw, env: iter(['a', 'b', 'c', 'd', 'e', 'f']), 'find__all__': lambda I, e, a, kw, env: []}
+    I = Interp(model, MOD, hooks)
+    res = I.explore(lambda: I.call_function(MOD + '.rename', [module], {'prefix_globals': False, 'preserved_globals': []}))
+    if len(res) != 1 or res[0][0][0] != 'return':
+        raise AnalysisError('UNDECIDED: rename() on the sorting world -> %s' % [(r[0], r[2][:2]) for r in res][:3])
+    if len(named) != 4:
+        raise AnalysisError('sorting world: %d of 4 bindings were named' % len(named))
+    return named, counts
